@@ -115,7 +115,7 @@ def proxy_scenario(rng, idx):
     return sc
 
 
-def run(ctx, prop):
+def collect(ctx, prop):
     quick = ctx.tier == "quick"
     rng = random.Random(ctx.seed * 65537 + 5)
     cfg = "MCF.cfg"
@@ -129,8 +129,11 @@ def run(ctx, prop):
     pcfg = "MCFP.cfg"
     with open(os.path.join(ctx.specdir(), pcfg), "w") as f:
         f.write("SPECIFICATION Spec\nCONSTANTS\n  MaxB = %d\n  MaxP = %d\nINVARIANTS DeliveredIsPrefix FinalMatches NoShortPacket\nCHECK_DEADLOCK FALSE\n" % ((2, 2) if quick else (2, 3)))
-    rp = ctx.tlc_ok("MC_FramingProxy", cfg=pcfg, workers=NCPU, heap="8g")
-    scen += [proxy_scenario(rng, i) for i in range(200 if quick else 4000)]
+    full = prop == "C05"          # other properties (C07: pipelined requests) only use the plain stream scenarios
+    rp = {"distinct": 0}
+    if full:
+        rp = ctx.tlc_ok("MC_FramingProxy", cfg=pcfg, workers=NCPU, heap="8g")
+        scen += [proxy_scenario(rng, i) for i in range(200 if quick else 4000)]
     sfile = ctx.path("scen.ndjson")
     with open(sfile, "w") as f:
         for s in scen:
@@ -153,14 +156,18 @@ def run(ctx, prop):
             if m and prop in m.group(1):
                 s = byid.get(m.group(2), {})
                 kind = "oversize" if s.get("pkts", [{}])[-1].get("rd") == "oversize" else ("truncated" if s.get("trunc") else "segmentation")
-                found.append({"key": "%s:server:%s" % (prop, kind), "what": "stream scenario %s (%s): delivered packets differ from Parse(stream) or the end-of-stream rule is broken" % (m.group(2), kind),
+                what = ("stream scenario %s (%s): delivered packets differ from Parse(stream) or the end-of-stream rule is broken" if prop == "C05" else
+                        "stream scenario %s (%s): several requests per read - a reply was not written before the next request was handled, or is missing at rest") % (m.group(2), kind)
+                found.append({"key": "%s:server:%s" % (prop, kind), "what": what,
                               "replay": {"kind": "chaos", "scenario": s, "seed": ctx.seed}})
     # client direction: replies in several TCP segments
     cf_ = ctx.path("client.ndjson")
-    p = ctx.run_harness(["client", cf_, str(ctx.seed), str(ncli)], timeout=900)
-    st2 = json.loads(p.stdout.strip().splitlines()[-1])
-    os.makedirs(ctx.path("cchunks"), exist_ok=True)
-    cres = validate_chunks(ctx, "Trace_Client", split_trace(cf_, NCPU, ctx.path("cchunks"), marker=None), heap="4g")
+    st2, cres = {"events": 0}, []
+    if full:
+        p = ctx.run_harness(["client", cf_, str(ctx.seed), str(ncli)], timeout=900)
+        st2 = json.loads(p.stdout.strip().splitlines()[-1])
+        os.makedirs(ctx.path("cchunks"), exist_ok=True)
+        cres = validate_chunks(ctx, "Trace_Client", split_trace(cf_, NCPU, ctx.path("cchunks"), marker=None), heap="4g")
     for rr in cres:
         lines = open(rr["file"]).read().splitlines()
         for line in rr["out"].splitlines():
@@ -176,11 +183,14 @@ def run(ctx, prop):
            "rule": "one evaluation = one byte stream (1..6 packets, bodies 0..65536) with one chunking fed to the real server; non-trivial = distinct chunking that actually cuts the stream",
            "samples": [sample], "oracle_counts": cnt, "design_states": r0["distinct"], "client_events": st2["events"], "exhaustive": False,
            "proxy_mode": {"design_states": rp["distinct"], "streams": cnt.get("proxy", 0), "model_divergences": len(pdivs), "first_divergences": pdivs[:5]}}
-    return conclude(ctx, "model_checking", cov,
-                    ["connections are scripted in-memory net.Conn objects returning exactly the scripted chunks per Read",
-                     "stream scenarios carry the unencrypted flag (obfuscation is C03's concern)",
-                     "allocation is measured with runtime.MemStats around the whole stream"],
-                    found)
+    return cov, ["connections are scripted in-memory net.Conn objects returning exactly the scripted chunks per Read",
+                 "stream scenarios carry the unencrypted flag (obfuscation is C03's concern)",
+                 "allocation is measured with runtime.MemStats around the whole stream"], found
+
+
+def run(ctx, prop):
+    cov, a, found = collect(ctx, prop)
+    return conclude(ctx, "model_checking", cov, a, found)
 
 
 def replay(ctx, prop, obj):
